@@ -27,7 +27,7 @@
              with the requested protocol | "empty"
    cert    : the TLS client certificate: "noauth" | "nontls" | "nochain" | "invalid" (chain does not
              verify) | "local" | "other" (verifies, for that AS)                                   *)
-EXTENDS Integers, Sequences
+EXTENDS Integers, Sequences, TLC
 
 Rpcs    == {"lvl1", "intra", "ashost", "hostas", "hosthost", "sv"}
 Protos  == {"generic", "scmp", "niche"}
@@ -91,4 +91,41 @@ WhyNot(q) ==
       [] q.rpc = "intra"    -> IF ~Configured(q) THEN "not-configured:" \o q.allow
                                ELSE IF ~(q.src = "local" \/ q.dst = "local") THEN "local-not-endpoint"
                                ELSE "-"
+-----------------------------------------------------------------------------
+(* Part 2 (C39): the documented key hierarchy as symbolic terms (strings, so that any two terms can
+   be compared).  doc/cryptography/drkey: a secret value belongs to (AS secret, protocol, epoch); a
+   level-1 key to (secret value, destination AS); AS-host / host-AS keys to (level-1 key, key type,
+   host) — and, for protocols that are not predefined, the protocol number, the level-1 key then
+   being the one of the generic protocol 0; a host-host key to (host-AS key, destination host).
+   Two derivations yield the same key iff their terms are equal.                                *)
+Generic == 0
+PredefinedProtos == {0, 1}          \* PROTOCOL_GENERIC_UNSPECIFIED, PROTOCOL_SCMP
+Predefined(p) == p \in PredefinedProtos
+L1Proto(p) == IF Predefined(p) THEN p ELSE Generic        \* protocol of the secret value / level-1 key
+Mode(p) == IF Predefined(p) THEN "specific" ELSE "generic" \* level-2 derivation used for protocol p
+
+SVTerm(secret, p, eb, ee) ==
+    "sv(" \o secret \o "," \o ToString(p) \o "," \o ToString(eb) \o "-" \o ToString(ee) \o ")"
+L1Term(sv, dstIA) == "l1(" \o sv \o "," \o dstIA \o ")"
+\* kt: "ashost" | "hostas"; mode "generic" puts the protocol number into the derivation input
+L2Term(kt, l1, mode, p, host) ==
+    kt \o "(" \o l1 \o "," \o mode \o (IF mode = "generic" THEN ":" \o ToString(p) ELSE "") \o "," \o host \o ")"
+HHTerm(hostas, dstHost) == "hosthost(" \o hostas \o "," \o dstHost \o ")"
+
+(* The key a request for protocol p must yield, per key type, from the AS secret of the source AS. *)
+DocSV(secret, p, eb, ee) == SVTerm(secret, p, eb, ee)
+DocL1(secret, p, eb, ee, dst) == L1Term(SVTerm(secret, p, eb, ee), dst)
+DocL2(kt, secret, p, eb, ee, dst, host) ==
+    L2Term(kt, L1Term(SVTerm(secret, L1Proto(p), eb, ee), dst), Mode(p), p, host)
+DocHH(secret, p, eb, ee, dst, srcHost, dstHost) ==
+    HHTerm(DocL2("hostas", secret, p, eb, ee, dst, srcHost), dstHost)
+
+(* Acceptance window (integers, one time unit).  A key of epoch [eb, ee] may be selected for the
+   relative timestamp ts at local time now only if the absolute time eb + ts lies in the epoch
+   extended by the grace period, and in the acceptance window [now - w/2, now + w/2].            *)
+AbsTime(eb, ts) == eb + ts
+InEpochWithGrace(eb, ee, grace, t) == eb <= t /\ t <= ee + grace
+InWindow(now, w, t) == now - (w \div 2) <= t /\ t <= now + (w \div 2)
+MaySelect(eb, ee, grace, now, w, ts) ==
+    InEpochWithGrace(eb, ee, grace, AbsTime(eb, ts)) /\ InWindow(now, w, AbsTime(eb, ts))
 =============================================================================
